@@ -45,6 +45,7 @@ TraceNext ==
        \/ r.ev = "Fetch" /\ Fetch(r.n1, r.s1) /\ Matches(r.obs)
        \/ r.ev = "Status" /\ Status(r.s1, r.n1) /\ Matches(r.obs)
        \/ r.ev = "List" /\ List(r.s1) /\ Matches(r.obs)
+       \/ r.ev = "Esearch" /\ Esearch(r.n2, r.n1) /\ Matches(r.obs)
        \/ r.ev = "Closed" /\ Closed /\ Matches(r.obs)
        \/ r.ev = "Tagged" /\ Tagged(r.n1, r.s1) /\ Matches(r.obs)
        \/ r.ev = "Bye" /\ Bye /\ Matches(r.obs)
